@@ -1655,11 +1655,17 @@ func (p *parser) parseTypeScriptNamespaceStmt(loc logger.Loc, opts parseStmtOpts
 	if p.lexer.Token == js_lexer.TDot {
 		dotLoc := p.lexer.Loc()
 		p.lexer.Next()
-		stmts = []js_ast.Stmt{p.parseTypeScriptNamespaceStmt(dotLoc, parseStmtOpts{
+		inner := p.parseTypeScriptNamespaceStmt(dotLoc, parseStmtOpts{
 			isExport:            true,
 			isNamespaceScope:    true,
 			isTypeScriptDeclare: opts.isTypeScriptDeclare,
-		})}
+		})
+
+		// "namespace a.b { type T = number }" is as empty as the same thing written
+		// with nested braces: an inner namespace without values is not a statement
+		if _, ok := inner.Data.(*js_ast.STypeScript); !ok {
+			stmts = []js_ast.Stmt{inner}
+		}
 	} else if opts.isTypeScriptDeclare && p.lexer.Token != js_lexer.TOpenBrace {
 		p.lexer.ExpectOrInsertSemicolon()
 	} else {
